@@ -397,6 +397,43 @@ Definition takes_best_ok (k : pcase) (now : N) (pre post : cobs) : bool :=
                      (find (fun id => spec_valid (k_cfg k) now (lookup (k_univ k) id)) (ob_cached post))
   end.
 
+(* "traffic does not return to the failed interface while the penalty is fresh", at a lookup:
+   a NEW path that enters the cache visibly penalised (observed reliability <= -0.15, i.e. over
+   an interface with a fresh report) must not be preferred over a NEW allowed, unexpired path of
+   the same answer that no report is about (expected penalty < 0.01): the avoiding path must not
+   be dropped while the penalised one is kept (scores differ by more than the 0.1 the length can
+   contribute), and the slot must not move to the penalised one while the avoiding one is valid *)
+Definition tracked_penalty (tracked : list (issue * N)) (now : N) (p : path) : Z :=
+  fold_left (fun acc jt => if steers (fst jt) p then (acc + spec_penalty_micro (fst jt) (now - snd jt))%Z else acc)
+            tracked 0%Z.
+Definition fresh_issue_ok (k : pcase) (tracked : list (issue * N)) (now : N) (pre post : cobs) (ids : list N) : bool :=
+  let c := k_cfg k in let u := k_univ k in
+  let old_fps := map (fun id => p_fp (lookup u id)) (ob_cached pre) in
+  let is_new := fun id => negb (memN (p_fp (lookup u id)) old_fps) in
+  let al := last_per_fp u (filter (fun id => tbl_allowed (k_pol k) (lookup u id)) ids) in
+  let avoiding := filter (fun id => let p := lookup u id in
+                             is_new id && handed_live_ok p now
+                             && match p_exp p with Some _ => true | None => false end
+                             && (tracked_penalty tracked now p <? 10000)%Z) al in
+  let penalised_new := filter (fun it => is_new (fst it) && (snd it - len_micro (lookup u (fst it)) <=? -150000)%Z)
+                              (zip_totals (ob_cached post) (ob_totals post)) in
+  match penalised_new with
+  | [] => true
+  | _ =>
+    forallb (fun id => memN id (ob_cached post)) avoiding
+    && match ob_active post with
+       | Some x => negb (existsb (fun it => fst it =? x) penalised_new
+                         && negb (optN_eqb (ob_active pre) (Some x))
+                         && existsb (fun id => spec_valid c now (lookup u id)) avoiding)
+       | None => true
+       end
+  end.
+Definition tick_answer_ok (k : pcase) (tracked : list (issue * N)) (e : cev) (pre post : cobs) : bool :=
+  match e with
+  | CTick now (Some ids) => fresh_issue_ok k tracked now pre post ids
+  | _ => true
+  end.
+
 Fixpoint c07_scan (k : pcase) (pre : option cobs) (pend : list issue) (tracked : list (issue * N))
          (evs : list (cev * cobs)) : list N :=
   match evs with
@@ -415,12 +452,14 @@ Fixpoint c07_scan (k : pcase) (pre : option cobs) (pend : list issue) (tracked :
          skipn ndel pend, tracked)
       | CTick now _, Some pv =>
         (if (ob_out ob =? 1)
-            && negb (new_path_decayed_ok k tracked now pv ob && ranked_desc (ob_totals ob) && takes_best_ok k now pv ob)
+            && negb (new_path_decayed_ok k tracked now pv ob && ranked_desc (ob_totals ob) && takes_best_ok k now pv ob
+                     && tick_answer_ok k tracked e pv ob)
          then 2 else 0, skipn ndel pend, tracked)
       | CTick now _, None =>
         (if (ob_out ob =? 1)
             && negb (new_path_decayed_ok k tracked now (mkObs 0 0 [] [] None 0 0 0 false 0 0 0 0 false) ob
-                     && ranked_desc (ob_totals ob))
+                     && ranked_desc (ob_totals ob)
+                     && tick_answer_ok k tracked e (mkObs 0 0 [] [] None 0 0 0 false 0 0 0 0 false) ob)
          then 2 else 0, skipn ndel pend, tracked)
       | _, _ => (0, pend, tracked)
       end in
